@@ -49,13 +49,19 @@ def grammar_specs():
     chain5 = {"name": "CHAIN5", "abstract": [["E", None, "ABC"], ["T", None, "ABC"]],
               "prods": [["ET", "E", None, [["t", ["ref", "T"]]]], ["TE", "T", None, [["e", ["ref", "E"]]]],
                         ["Num", "T", None, [["v", ["ann", "int", ["IntRange", 0, 9]]]]]], "start": "E"}
-    return [two, e, w, s, chain, chain5]
+    return [two, e, w, s, chain, chain5, dict(shapes["S5"])]  # S5: concrete (recursive) start symbol
 
 
 def configs(tier, seed):
     out = []
     seeds = sorted({0, 1, seed})
     for gi, spec in enumerate(grammar_specs()):
+        if spec["name"].startswith("S5"):
+            # only the decider / object-reuse configurations on this one
+            for dec in ("pigrow", "full", "maxdepth"):
+                for rep in ("ge", "sge", "tree"):
+                    out.append({"g": gi, "rep": rep, "algo": "gpx", "seed": seeds[0], "decider": dec, "shared_rep": rep != "tree"})
+            continue
         for rep in REPS:
             for algo in ALGOS:
                 for sd in seeds if tier != "quick" else seeds[:2]:
@@ -66,7 +72,7 @@ def configs(tier, seed):
             out.append({"g": gi, "rep": "tree", "algo": "gp", "seed": seeds[0], "init": init})
         for dec in ("pigrow", "full"):
             for rep in ("tree", "ge"):
-                out.append({"g": gi, "rep": rep, "algo": "gpx", "seed": seeds[0], "decider": dec})
+                out.append({"g": gi, "rep": rep, "algo": "gpx", "seed": seeds[0], "decider": dec, "shared_rep": rep == "ge"})
         out.append({"g": gi, "rep": "tree", "algo": "gp", "seed": seeds[0], "user_tracker": True})
         out.append({"g": gi, "rep": "ge", "algo": "hc", "seed": seeds[0], "user_tracker": True})
     return out
@@ -102,7 +108,12 @@ def run_config(cfg, hash_order=None, want_trace=False, shared=None):
             shared["grammar"] = g
         r = NativeRandomSource(cfg["seed"])
         depth = 8 if spec["name"].startswith("CHAIN") else 4
-        rep = make_rep(cfg["rep"], g, r, depth, gene_length=24, decider=cfg.get("decider", "maxdepth"))
+        if shared is not None and shared.get("rep") is not None:
+            rep = shared["rep"]  # one genotype-backed representation object serving two searches in a row
+        else:
+            rep = make_rep(cfg["rep"], g, r, depth, gene_length=24, decider=cfg.get("decider", "maxdepth"))
+            if shared is not None and cfg.get("shared_rep"):
+                shared["rep"] = rep
         trace = []
 
         def ff(p):
@@ -233,6 +244,20 @@ def run_unit(unit):
         a = run_config(cfg, want_trace=True)
         b = run_config(cfg, want_trace=True)
         r.executions += 2
+        if cfg.get("shared_rep"):
+            # the same grammar and the same (genotype-backed) representation object for two freshly seeded searches
+            sh2: dict = {}
+            a3 = run_config(cfg, want_trace=True, shared=sh2)
+            b3 = run_config(cfg, want_trace=True, shared=sh2)
+            sh2["bundle"].cleanup()
+            r.executions += 2
+            r.count("shared_representation_repeats")
+            if a3[0] != b3[0]:
+                k = next((i for i, (x, y) in enumerate(zip(a3[1], b3[1])) if x != y), min(len(a3[1]), len(b3[1])))
+                r.add_violation(Violation(PROP, f"{cfg['algo']}.search", "second-run-differs", {"rep": cfg["rep"], "algo": cfg["algo"], "shared": "representation"},
+                                          {"unit": unit, "first_difference": k},
+                                          f"{cfg}: a second search reusing the same representation object (fresh seeded source) diverges at evaluation {k}: "
+                                          f"{a3[1][k:k+1]} vs {b3[1][k:k+1]}"))
         if cfg.get("init"):
             # the same grammar and the same initialiser object for two freshly seeded searches
             sh: dict = {}
